@@ -8,19 +8,26 @@ package main
 // refactoring — extract function — moves such a store into a helper the rule has never heard of, and a rule
 // that does not see it there would raise an alarm on a tree on which the property holds. Instead of making
 // a hundred rules inter-procedural, the program is brought back to the shape the rules were written for:
-// every unexported function or method whose (canonical) name is not among the functions of the pinned tree
-// (baseline_funcs.go) and all of whose uses are plain calls in one of three statement shapes is expanded at its
-// call sites, in source, and the result is loaded again through an overlay:
+// every function or method whose (canonical) name is not among the functions of the pinned tree
+// (baseline_funcs.go) and all of whose uses are plain calls is expanded at its call sites, in source, and the
+// result is loaded again through an overlay. Supported call positions:
 //
-//	h(a…)                 statement; h has no results and no return except a trailing bare one
-//	return h(a…)          h has the caller's result arity
-//	x, y := h(a…) / =     h has no return except one trailing "return e…"
+//	h(a…)                       a statement
+//	return h(a…)                h has the caller's result arity (the helper's returns become the caller's)
+//	x, y := h(a…) / = / if x := h(a…); c {…}
+//	… h(a…) …                   anywhere in the expression of an expression / return / assignment statement or
+//	                            of an if condition (single result; not under && / ||, not in a closure): the
+//	                            value is computed into a temporary in front of the statement
 //
-// Parameters (and the receiver) become fresh local bindings of the argument expressions, evaluated once, in
-// order, exactly as a call evaluates them. Helpers with defer, recover, labels, named results or variadic
-// parameters, helpers used as values, and helpers in another file than a caller are left alone: the rules then
-// see the program as it is (and may report what they cannot place). A bug inside an extracted helper is
-// inlined along with it and is judged where it now sits.
+// Parameters (and the receiver) become local bindings of the argument expressions, evaluated once, in order,
+// as a call evaluates them — unless the argument is the never-assigned variable of the same name, which is
+// then used directly. A helper with one trailing return is expanded in line; one with several returns is
+// expanded inside a labelled one-armed switch, each "return e" becoming "result = e; break label".
+// Helpers with defer, recover, labels, named results or variadic parameters, helpers used as values, recursive
+// helpers and helpers in another file than a caller are left alone: the rules then see the program as it is
+// (and may report what they cannot place). An exported new helper is expanded at its call sites too, but its
+// declaration stays: it is new API surface and is judged as such. A bug inside an extracted helper is inlined
+// along with it and is judged where it now sits. The normalised program is only analysed, never run.
 
 import (
 	"bytes"
@@ -36,21 +43,22 @@ import (
 
 type inlineSite struct {
 	file string
-	s, e int // byte range of the statement to replace
+	s, e int // byte range to replace
 	text func() (string, bool)
 }
 
 type normaliser struct {
-	fset    *token.FileSet
-	src     map[string][]byte
-	sites   map[string][]*inlineSite // by file
-	deleted map[string][][2]int      // helper declarations to drop, by file
-	names   []string
-	seq     int
+	pk    *packages.Package
+	fset  *token.FileSet
+	src   map[string][]byte
+	sites map[string][]*inlineSite // by file
+	seq   int
 }
 
+func (n *normaliser) off(p token.Pos) int { return n.fset.Position(p).Offset }
+
 func (n *normaliser) srcOf(file string, s, e token.Pos) string {
-	return string(n.src[file][n.fset.Position(s).Offset:n.fset.Position(e).Offset])
+	return string(n.src[file][n.off(s):n.off(e)])
 }
 
 // render returns src[s:e] of file with every registered site inside the range replaced (recursively).
@@ -61,7 +69,12 @@ func (n *normaliser) render(file string, s, e int) (string, bool) {
 			inner = append(inner, st)
 		}
 	}
-	sort.Slice(inner, func(i, j int) bool { return inner[i].s < inner[j].s })
+	sort.SliceStable(inner, func(i, j int) bool {
+		if inner[i].s != inner[j].s {
+			return inner[i].s < inner[j].s
+		}
+		return inner[i].e < inner[j].e // an insertion (empty range) comes before a replacement starting there
+	})
 	var b bytes.Buffer
 	pos := s
 	for _, st := range inner {
@@ -80,6 +93,13 @@ func (n *normaliser) render(file string, s, e int) (string, bool) {
 	return b.String(), true
 }
 
+type nHelper struct {
+	decl *ast.FuncDecl
+	obj  *types.Func
+	file string
+	rets []*ast.ReturnStmt
+}
+
 // normalise builds an overlay in which the helpers selected by isNew are inlined. It returns the overlay,
 // the names of the helpers inlined, and the names of new helpers it had to leave alone.
 func normalise(pkgs []*packages.Package, overlay map[string][]byte, readFile func(string) ([]byte, error), isNew func(*types.Func) bool) (map[string][]byte, []string, []string) {
@@ -89,8 +109,9 @@ func normalise(pkgs []*packages.Package, overlay map[string][]byte, readFile fun
 		if !isProdPath(pk.PkgPath) || pk.TypesInfo == nil {
 			continue
 		}
-		n := &normaliser{fset: pk.Fset, src: map[string][]byte{}, sites: map[string][]*inlineSite{}, deleted: map[string][][2]int{}}
+		n := &normaliser{pk: pk, fset: pk.Fset, src: map[string][]byte{}, sites: map[string][]*inlineSite{}}
 		fileOf := map[*ast.File]string{}
+		parent := map[ast.Node]ast.Node{}
 		for _, f := range pk.Syntax {
 			fn := pk.Fset.Position(f.Pos()).Filename
 			if strings.HasSuffix(fn, "_test.go") {
@@ -102,59 +123,43 @@ func normalise(pkgs []*packages.Package, overlay map[string][]byte, readFile fun
 			} else if b, err := readFile(fn); err == nil {
 				n.src[fn] = b
 			}
+			var stack []ast.Node
+			ast.Inspect(f, func(nd ast.Node) bool {
+				if nd == nil {
+					stack = stack[:len(stack)-1]
+					return true
+				}
+				if len(stack) > 0 {
+					parent[nd] = stack[len(stack)-1]
+				}
+				stack = append(stack, nd)
+				return true
+			})
 		}
-		// candidate helpers
-		type helper struct {
-			decl *ast.FuncDecl
-			obj  *types.Func
-			file string
-		}
-		var cands []*helper
+		var cands []*nHelper
 		for f, fn := range fileOf {
 			for _, d := range f.Decls {
 				fd, ok := d.(*ast.FuncDecl)
-				if !ok || fd.Body == nil || fd.Name.IsExported() || fd.Name.Name == "init" || fd.Name.Name == "main" {
+				if !ok || fd.Body == nil || fd.Name.Name == "init" || fd.Name.Name == "main" {
 					continue
 				}
 				obj, _ := pk.TypesInfo.Defs[fd.Name].(*types.Func)
 				if obj == nil || !isNew(obj) {
 					continue
 				}
-				cands = append(cands, &helper{fd, obj, fn})
+				cands = append(cands, &nHelper{decl: fd, obj: obj, file: fn, rets: returnsOutsideClosures(fd.Body)})
 			}
 		}
-		if len(cands) == 0 {
-			continue
-		}
-		// enclosing function declaration and statement of every use
+		sort.Slice(cands, func(i, j int) bool { return cands[i].obj.Name() < cands[j].obj.Name() })
 		for _, h := range cands {
 			name := h.obj.Name()
 			ok := helperInlinable(h.decl)
-			type use struct {
-				file   string
-				caller *ast.FuncDecl
-				stmt   ast.Stmt
-				call   *ast.CallExpr
-			}
-			var uses []use
+			var sites []*inlineSite
 			if ok {
 				for f, fn := range fileOf {
-					parent := map[ast.Node]ast.Node{}
-					var stack []ast.Node
-					ast.Inspect(f, func(nd ast.Node) bool {
-						if nd == nil {
-							stack = stack[:len(stack)-1]
-							return true
-						}
-						if len(stack) > 0 {
-							parent[nd] = stack[len(stack)-1]
-						}
-						stack = append(stack, nd)
-						return true
-					})
 					ast.Inspect(f, func(nd ast.Node) bool {
 						id, isID := nd.(*ast.Ident)
-						if !isID || pk.TypesInfo.Uses[id] != types.Object(h.obj) {
+						if !isID || !ok || pk.TypesInfo.Uses[id] != types.Object(h.obj) {
 							return true
 						}
 						var fun ast.Node = id
@@ -162,67 +167,37 @@ func normalise(pkgs []*packages.Package, overlay map[string][]byte, readFile fun
 							fun = sel
 						}
 						call, isCall := parent[fun].(*ast.CallExpr)
-						if !isCall || call.Fun != fun.(ast.Expr) {
+						if !isCall || call.Fun != fun.(ast.Expr) || (fn != h.file && !importsSuffice(pk, h.decl, f)) {
 							ok = false
 							return true
 						}
-						stmt, isStmt := parent[call].(ast.Stmt)
-						if !isStmt {
+						sts := n.site(h, call, fn, parent)
+						if sts == nil {
 							ok = false
 							return true
 						}
-						switch parent[stmt].(type) {
-						case *ast.BlockStmt, *ast.CaseClause, *ast.CommClause:
-						default:
-							ok = false
-							return true
-						}
-						var caller *ast.FuncDecl
-						for x := parent[stmt]; x != nil; x = parent[x] {
-							if fd, isFD := x.(*ast.FuncDecl); isFD {
-								caller = fd
-							}
-						}
-						if caller == nil || fn != h.file || caller == h.decl {
-							ok = false
-							return true
-						}
-						uses = append(uses, use{fn, caller, stmt, call})
+						sites = append(sites, sts...)
 						return true
 					})
 				}
 			}
-			if !ok || len(uses) == 0 {
+			if !ok || len(sites) == 0 {
 				left = append(left, name)
 				continue
 			}
-			// each use must have an allowed shape; build its replacement lazily
-			var sites []*inlineSite
-			for _, u := range uses {
-				st := n.site(pk, h.decl, h.file, u.caller, u.stmt, u.call)
-				if st == nil {
-					ok = false
-					break
+			for _, st := range sites {
+				n.sites[st.file] = append(n.sites[st.file], st)
+			}
+			if !h.decl.Name.IsExported() {
+				ds := h.decl.Pos()
+				if h.decl.Doc != nil {
+					ds = h.decl.Doc.Pos()
 				}
-				sites = append(sites, st)
+				n.sites[h.file] = append(n.sites[h.file], &inlineSite{file: h.file, s: n.off(ds), e: n.off(h.decl.End()), text: func() (string, bool) { return "", true }})
 			}
-			if !ok {
-				left = append(left, name)
-				continue
-			}
-			n.sites[h.file] = append(n.sites[h.file], sites...)
-			ds := h.decl.Pos()
-			if h.decl.Doc != nil {
-				ds = h.decl.Doc.Pos()
-			}
-			n.deleted[h.file] = append(n.deleted[h.file], [2]int{n.fset.Position(ds).Offset, n.fset.Position(h.decl.End()).Offset})
 			inlined = append(inlined, name)
 		}
 		for file := range n.sites {
-			// deletions are sites with empty text
-			for _, d := range n.deleted[file] {
-				n.sites[file] = append(n.sites[file], &inlineSite{file: file, s: d[0], e: d[1], text: func() (string, bool) { return "", true }})
-			}
 			t, ok := n.render(file, 0, len(n.src[file]))
 			if !ok {
 				return nil, nil, append(left, inlined...)
@@ -259,16 +234,17 @@ func helperInlinable(fd *ast.FuncDecl) bool {
 		switch x := nd.(type) {
 		case *ast.DeferStmt, *ast.LabeledStmt:
 			ok = false
+		case *ast.BranchStmt:
+			if x.Label != nil {
+				ok = false
+			}
 		case *ast.CallExpr:
 			if id, isID := x.Fun.(*ast.Ident); isID && id.Name == "recover" {
 				ok = false
 			}
 		case *ast.Ident:
-			if x.Name == fd.Name.Name && fd.Recv == nil {
-				// possible recursion (checked loosely)
-				if x != fd.Name {
-					ok = false
-				}
+			if x.Name == fd.Name.Name && x != fd.Name {
+				ok = false // possibly recursive
 			}
 		}
 		return ok
@@ -291,72 +267,114 @@ func returnsOutsideClosures(body *ast.BlockStmt) []*ast.ReturnStmt {
 	return out
 }
 
-func (n *normaliser) site(pk *packages.Package, h *ast.FuncDecl, file string, caller *ast.FuncDecl, stmt ast.Stmt, call *ast.CallExpr) *inlineSite {
+func inList(p ast.Node) bool {
+	switch p.(type) {
+	case *ast.BlockStmt, *ast.CaseClause, *ast.CommClause:
+		return true
+	}
+	return false
+}
+
+// site plans the expansion of one call of helper h (one or two replacement sites; nil: not supported).
+func (n *normaliser) site(h *nHelper, call *ast.CallExpr, cf string, parent map[ast.Node]ast.Node) []*inlineSite {
+	pk, file := n.pk, h.file // file: where the helper's text lives; cf: the file of the call
 	nRes := 0
-	if h.Type.Results != nil {
-		nRes = len(h.Type.Results.List)
+	if h.decl.Type.Results != nil {
+		nRes = len(h.decl.Type.Results.List)
 	}
-	rets := returnsOutsideClosures(h.Body)
-	var last ast.Stmt
-	if len(h.Body.List) > 0 {
-		last = h.Body.List[len(h.Body.List)-1]
+	var caller *ast.FuncDecl
+	inClosure := false
+	for x := parent[call]; x != nil; x = parent[x] {
+		switch y := x.(type) {
+		case *ast.FuncDecl:
+			caller = y
+		case *ast.FuncLit:
+			inClosure = true
+		}
 	}
-	shape := ""
-	switch x := stmt.(type) {
-	case *ast.ExprStmt:
-		if x.X != ast.Expr(call) || nRes != 0 {
-			return nil
-		}
-		// in tail position of a caller without results the helper's own returns simply end the caller
-		callerVoid := caller.Type.Results == nil || len(caller.Type.Results.List) == 0
-		isTail := callerVoid && len(caller.Body.List) > 0 && caller.Body.List[len(caller.Body.List)-1] == stmt
-		if !isTail && (len(rets) > 1 || (len(rets) == 1 && ast.Stmt(rets[0]) != last)) {
-			return nil
-		}
-		shape = "stmt"
-		if isTail {
-			shape = "return"
-		}
-	case *ast.ReturnStmt:
-		if len(x.Results) != 1 || x.Results[0] != ast.Expr(call) || nRes == 0 {
-			return nil
-		}
-		cr := 0
-		if caller.Type.Results != nil {
-			for _, r := range caller.Type.Results.List {
-				if len(r.Names) > 0 {
-					return nil
-				}
-				cr++
-			}
-		}
-		// the statement must belong to the caller itself, not to a closure inside it
-		inClosure := false
-		ast.Inspect(caller.Body, func(nd ast.Node) bool {
-			if fl, ok := nd.(*ast.FuncLit); ok && fl.Pos() <= stmt.Pos() && stmt.End() <= fl.End() {
-				inClosure = true
-			}
-			return !inClosure
-		})
-		if inClosure || cr != nRes {
-			return nil
-		}
-		shape = "return"
-	case *ast.AssignStmt:
-		if len(x.Rhs) != 1 || x.Rhs[0] != ast.Expr(call) || len(x.Lhs) != nRes || nRes == 0 || (x.Tok != token.DEFINE && x.Tok != token.ASSIGN) {
-			return nil
-		}
-		if len(rets) != 1 || ast.Stmt(rets[0]) != last || len(rets[0].Results) != nRes {
-			return nil
-		}
-		shape = "assign"
-	default:
+	if caller == nil || caller == h.decl {
 		return nil
 	}
-	// a parameter that the helper never assigns to (and whose address it never takes) and whose argument is
-	// the identifier of the same name needs no binding: the caller's variable is used directly
+	var last ast.Stmt
+	if len(h.decl.Body.List) > 0 {
+		last = h.decl.Body.List[len(h.decl.Body.List)-1]
+	}
+	trailingOnly := len(h.rets) == 0 || (len(h.rets) == 1 && ast.Stmt(h.rets[0]) == last)
+
+	// ---- where does the call sit?
+	shape := ""
+	var host ast.Stmt // the statement that is replaced
+	var assign *ast.AssignStmt
+	switch p := parent[call].(type) {
+	case *ast.ExprStmt:
+		if nRes == 0 && inList(parent[p]) {
+			shape, host = "stmt", p
+			callerVoid := caller.Type.Results == nil || len(caller.Type.Results.List) == 0
+			if callerVoid && !inClosure && len(caller.Body.List) > 0 && caller.Body.List[len(caller.Body.List)-1] == ast.Stmt(p) {
+				shape = "tail"
+			}
+		}
+	case *ast.ReturnStmt:
+		if len(p.Results) == 1 && nRes > 0 && !inClosure && inList(parent[p]) {
+			cr := 0
+			named := false
+			if caller.Type.Results != nil {
+				for _, r := range caller.Type.Results.List {
+					named = named || len(r.Names) > 0
+					cr++
+				}
+			}
+			if !named && cr == nRes {
+				shape, host = "tail", p
+			}
+		}
+	case *ast.AssignStmt:
+		if len(p.Rhs) == 1 && len(p.Lhs) == nRes && nRes > 0 && (p.Tok == token.DEFINE || p.Tok == token.ASSIGN) {
+			if inList(parent[p]) {
+				shape, host, assign = "assign", p, p
+			} else if ifs, isIf := parent[p].(*ast.IfStmt); isIf && ifs.Init == ast.Stmt(p) && inList(parent[ifs]) {
+				shape, host, assign = "if-init", ifs, p
+			}
+		}
+	}
+	if shape == "" {
+		// expression position: the value is computed in front of the enclosing statement
+		if nRes != 1 {
+			return nil
+		}
+		var st ast.Stmt
+		var prev ast.Node = call
+		for x := parent[call]; x != nil; prev, x = x, parent[x] {
+			if be, isB := x.(*ast.BinaryExpr); isB && (be.Op == token.LAND || be.Op == token.LOR) && be.Y == prev {
+				return nil
+			}
+			if _, isL := x.(*ast.FuncLit); isL {
+				return nil
+			}
+			if s, isS := x.(ast.Stmt); isS {
+				st = s
+				break
+			}
+		}
+		switch s := st.(type) {
+		case *ast.ExprStmt, *ast.ReturnStmt, *ast.AssignStmt, *ast.IncDecStmt:
+			if !inList(parent[s]) {
+				return nil
+			}
+		case *ast.IfStmt:
+			// only in the condition, and not an else-if
+			if !(call.Pos() >= s.Cond.Pos() && call.End() <= s.Cond.End()) || !inList(parent[s]) {
+				return nil
+			}
+		default:
+			return nil
+		}
+		shape, host = "expr", st
+	}
+
+	// ---- parameter bindings
 	assigned := map[string]bool{}
-	ast.Inspect(h.Body, func(nd ast.Node) bool {
+	ast.Inspect(h.decl.Body, func(nd ast.Node) bool {
 		mark := func(e ast.Expr) {
 			if id, ok := e.(*ast.Ident); ok {
 				assigned[id.Name] = true
@@ -387,40 +405,37 @@ func (n *normaliser) site(pk *packages.Package, h *ast.FuncDecl, file string, ca
 		id, ok := arg.(*ast.Ident)
 		return ok && id.Name == param && !assigned[param]
 	}
-	// receiver and argument bindings
-	var binds, bindTypes []string
-	recvBound := false
-	if h.Recv != nil {
+	var bNames, bArgs, bTypes []string
+	if h.decl.Recv != nil {
 		sel, ok := call.Fun.(*ast.SelectorExpr)
 		if !ok {
 			return nil
 		}
 		rt, okT := pk.TypesInfo.Types[sel.X]
-		recvObj := pk.TypesInfo.Defs[h.Recv.List[0].Names[0]]
+		recvObj := pk.TypesInfo.Defs[h.decl.Recv.List[0].Names[0]]
 		if !okT || recvObj == nil || !types.Identical(rt.Type, recvObj.Type()) {
 			return nil
 		}
-		if !sameName(h.Recv.List[0].Names[0].Name, sel.X) {
-			binds = append(binds, h.Recv.List[0].Names[0].Name, n.srcOf(file, sel.X.Pos(), sel.X.End()))
-			recvBound = true
+		if rn := h.decl.Recv.List[0].Names[0].Name; !sameName(rn, sel.X) {
+			bNames, bArgs, bTypes = append(bNames, rn), append(bArgs, n.srcOf(cf, sel.X.Pos(), sel.X.End())), append(bTypes, "")
 		}
 	} else if _, isID := call.Fun.(*ast.Ident); !isID {
 		return nil
 	}
 	ai := 0
-	for _, p := range h.Type.Params.List {
-		names := p.Names
-		if len(names) == 0 {
+	for _, p := range h.decl.Type.Params.List {
+		if len(p.Names) == 0 {
 			ai++
 			continue
 		}
-		for _, nm := range names {
+		for _, nm := range p.Names {
 			if ai >= len(call.Args) {
 				return nil
 			}
 			if nm.Name != "_" && !sameName(nm.Name, call.Args[ai]) {
-				binds = append(binds, nm.Name, n.srcOf(file, call.Args[ai].Pos(), call.Args[ai].End()))
-				bindTypes = append(bindTypes, n.srcOf(file, p.Type.Pos(), p.Type.End()))
+				bNames = append(bNames, nm.Name)
+				bArgs = append(bArgs, n.srcOf(cf, call.Args[ai].Pos(), call.Args[ai].End()))
+				bTypes = append(bTypes, n.srcOf(file, p.Type.Pos(), p.Type.End()))
 			}
 			ai++
 		}
@@ -428,66 +443,192 @@ func (n *normaliser) site(pk *packages.Package, h *ast.FuncDecl, file string, ca
 	if ai != len(call.Args) {
 		return nil
 	}
+	var resTypes []string
+	if h.decl.Type.Results != nil {
+		for _, r := range h.decl.Type.Results.List {
+			resTypes = append(resTypes, n.srcOf(file, r.Type.Pos(), r.Type.End()))
+		}
+	}
 	n.seq++
 	id := n.seq
-	s0, e0 := n.fset.Position(stmt.Pos()).Offset, n.fset.Position(stmt.End()).Offset
-	if recvBound {
-		bindTypes = append([]string{""}, bindTypes...)
-	}
-	return &inlineSite{file: file, s: s0, e: e0, text: func() (string, bool) {
-		var pre, in strings.Builder
-		for i := 0; i+1 < len(binds); i += 2 {
-			if bindTypes[i/2] == "" {
-				fmt.Fprintf(&pre, "inl%dA%d := %s\n", id, i/2, binds[i+1])
+
+	// pre: temporaries for the arguments (outer scope); in: the parameter names (inner scope)
+	bindings := func() (pre, in string) {
+		var p, i strings.Builder
+		for k := range bNames {
+			if bTypes[k] == "" {
+				fmt.Fprintf(&p, "inl%dA%d := %s\n", id, k, bArgs[k])
 			} else {
-				fmt.Fprintf(&pre, "var inl%dA%d %s = %s\n", id, i/2, bindTypes[i/2], binds[i+1])
+				fmt.Fprintf(&p, "var inl%dA%d %s = %s\n", id, k, bTypes[k], bArgs[k])
 			}
-			fmt.Fprintf(&in, "%s := inl%dA%d\n_ = %s\n", binds[i], id, i/2, binds[i])
+			fmt.Fprintf(&i, "%s := inl%dA%d\n_ = %s\n", bNames[k], id, k, bNames[k])
 		}
-		var resTypes []string
-		if h.Type.Results != nil {
-			for _, r := range h.Type.Results.List {
-				resTypes = append(resTypes, n.srcOf(file, r.Type.Pos(), r.Type.End()))
-			}
+		return p.String(), i.String()
+	}
+	bs, be := n.off(h.decl.Body.Lbrace)+1, n.off(h.decl.Body.Rbrace)
+	resNames := make([]string, len(resTypes))
+	for k := range resTypes {
+		resNames[k] = fmt.Sprintf("inl%dR%d", id, k)
+	}
+	retAssign := func(ret *ast.ReturnStmt) (string, bool) {
+		if len(ret.Results) == 0 {
+			return "", true
 		}
-		bs, be := n.fset.Position(h.Body.Lbrace).Offset+1, n.fset.Position(h.Body.Rbrace).Offset
-		switch shape {
-		case "stmt", "return":
-			if shape == "stmt" && len(rets) == 1 {
-				be = n.fset.Position(rets[0].Pos()).Offset
+		if len(ret.Results) != len(resTypes) {
+			return "", false
+		}
+		var rhs []string
+		for _, r := range ret.Results {
+			t, ok := n.render(file, n.off(r.Pos()), n.off(r.End()))
+			if !ok {
+				return "", false
 			}
+			rhs = append(rhs, t)
+		}
+		return strings.Join(resNames, ", ") + " = " + strings.Join(rhs, ", ") + "\n", true
+	}
+	// value: statements that leave the helper's results in resNames (declared by the user of value)
+	value := func() (string, bool) {
+		_, in := bindings()
+		if trailingOnly {
+			end, tailAssign := be, ""
+			if len(h.rets) == 1 {
+				end = n.off(h.rets[0].Pos())
+				ta, ok := retAssign(h.rets[0])
+				if !ok {
+					return "", false
+				}
+				tailAssign = ta
+			}
+			body, ok := n.render(file, bs, end)
+			if !ok {
+				return "", false
+			}
+			return "{\n" + in + body + "\n" + tailAssign + "}\n", true
+		}
+		// several returns: a labelled one-armed switch, "return e" → "results = e; break label"
+		label := fmt.Sprintf("inl%dL", id)
+		var b strings.Builder
+		pos := bs
+		for _, ret := range h.rets {
+			gap, ok := n.render(file, pos, n.off(ret.Pos()))
+			if !ok {
+				return "", false
+			}
+			b.WriteString(gap)
+			ra, ok := retAssign(ret)
+			if !ok {
+				return "", false
+			}
+			fmt.Fprintf(&b, "{\n%sbreak %s\n}", ra, label)
+			pos = n.off(ret.End())
+		}
+		gap, ok := n.render(file, pos, be)
+		if !ok {
+			return "", false
+		}
+		b.WriteString(gap)
+		return label + ":\nswitch {\ndefault:\n" + in + b.String() + "\n}\n", true
+	}
+	decls := func() string {
+		var d strings.Builder
+		for k, t := range resTypes {
+			fmt.Fprintf(&d, "var %s %s\n", resNames[k], t)
+		}
+		return d.String()
+	}
+	lhsText := func() string {
+		var lhs []string
+		for _, l := range assign.Lhs {
+			lhs = append(lhs, n.srcOf(cf, l.Pos(), l.End()))
+		}
+		return strings.Join(lhs, ", ") + " " + assign.Tok.String() + " " + strings.Join(resNames, ", ")
+	}
+
+	switch shape {
+	case "tail":
+		return []*inlineSite{{file: cf, s: n.off(host.Pos()), e: n.off(host.End()), text: func() (string, bool) {
+			pre, in := bindings()
 			body, ok := n.render(file, bs, be)
 			if !ok {
 				return "", false
 			}
-			return "{\n" + pre.String() + "{\n" + in.String() + body + "\n}\n}", true
-		case "assign":
-			ret := rets[0]
-			if len(ret.Results) != len(resTypes) {
-				return "", false
-			}
-			body, ok := n.render(file, bs, n.fset.Position(ret.Pos()).Offset)
+			return "{\n" + pre + "{\n" + in + body + "\n}\n}", true
+		}}}
+	case "stmt":
+		return []*inlineSite{{file: cf, s: n.off(host.Pos()), e: n.off(host.End()), text: func() (string, bool) {
+			pre, _ := bindings()
+			v, ok := value()
 			if !ok {
 				return "", false
 			}
-			var decl strings.Builder
-			var tl, tr, ol []string
-			for i, t := range resTypes {
-				fmt.Fprintf(&decl, "var inl%dR%d %s\n", id, i, t)
-				tl = append(tl, fmt.Sprintf("inl%dR%d", id, i))
-				rt, ok := n.render(file, n.fset.Position(ret.Results[i].Pos()).Offset, n.fset.Position(ret.Results[i].End()).Offset)
+			return "{\n" + pre + v + "}", true
+		}}}
+	case "assign":
+		return []*inlineSite{{file: cf, s: n.off(host.Pos()), e: n.off(host.End()), text: func() (string, bool) {
+			pre, _ := bindings()
+			v, ok := value()
+			if !ok {
+				return "", false
+			}
+			return pre + decls() + v + lhsText(), true
+		}}}
+	case "if-init":
+		ifs := host.(*ast.IfStmt)
+		return []*inlineSite{{file: cf, s: n.off(host.Pos()), e: n.off(host.End()), text: func() (string, bool) {
+			pre, _ := bindings()
+			v, ok := value()
+			if !ok {
+				return "", false
+			}
+			rest, ok := n.render(cf, n.off(ifs.Cond.Pos()), n.off(ifs.End()))
+			if !ok {
+				return "", false
+			}
+			return "{\n" + pre + decls() + v + lhsText() + "\nif " + rest + "\n}", true
+		}}}
+	case "expr":
+		// two sites: the value is computed in front of the statement, the call itself becomes the temporary
+		hostS := n.off(host.Pos())
+		return []*inlineSite{
+			{file: cf, s: hostS, e: hostS, text: func() (string, bool) {
+				pre, _ := bindings()
+				v, ok := value()
 				if !ok {
 					return "", false
 				}
-				tr = append(tr, rt)
-			}
-			as := stmt.(*ast.AssignStmt)
-			for _, l := range as.Lhs {
-				ol = append(ol, n.srcOf(file, l.Pos(), l.End()))
-			}
-			return pre.String() + decl.String() + "{\n" + in.String() + body + "\n" + strings.Join(tl, ", ") + " = " + strings.Join(tr, ", ") + "\n}\n" +
-				strings.Join(ol, ", ") + " " + as.Tok.String() + " " + strings.Join(tl, ", "), true
+				return pre + decls() + v, true
+			}},
+			{file: cf, s: n.off(call.Pos()), e: n.off(call.End()), text: func() (string, bool) { return resNames[0], true }},
 		}
-		return "", false
-	}}
+	}
+	return nil
+}
+
+
+// importsSuffice: every package the helper's body names is imported, under the same name, by the file f.
+func importsSuffice(pk *packages.Package, h *ast.FuncDecl, f *ast.File) bool {
+	have := map[string]string{} // local name → path
+	for _, im := range f.Imports {
+		path := strings.Trim(im.Path.Value, "\"")
+		name := path[strings.LastIndex(path, "/")+1:]
+		if im.Name != nil {
+			name = im.Name.Name
+		}
+		have[name] = path
+	}
+	ok := true
+	check := func(nd ast.Node) bool {
+		if id, isID := nd.(*ast.Ident); isID {
+			if pn, isPkg := pk.TypesInfo.Uses[id].(*types.PkgName); isPkg {
+				if have[id.Name] != pn.Imported().Path() {
+					ok = false
+				}
+			}
+		}
+		return ok
+	}
+	ast.Inspect(h.Body, check)
+	ast.Inspect(h.Type, check)
+	return ok
 }
